@@ -7,6 +7,7 @@ import "go/types"
 func (e *Engine) setupModels() {
 	e.setupWS()
 	e.setupDial()
+	e.setupUpgrade()
 	e.setupFmt()
 	e.setupJSON()
 	e.setupCtx()
@@ -130,6 +131,17 @@ func (e *Engine) setupWS() {
 		w.failed = true
 		return tuple{BV(64, ^uint64(0)), nilBytes, e.newErr("websocket: close 1006 (abnormal closure): unexpected EOF")}
 	}
+	// NextReader: the next message as (type, reader over its payload)
+	x["(*"+wsPkg+".Conn).NextReader"] = func(e *Engine, fr *frame, a []value) value {
+		r := e.ext["(*"+wsPkg+".Conn).ReadMessage"](e, fr, a).(tuple)
+		rdT := e.prog.ImportedPackage("io")
+		_ = rdT
+		if r[2].(iface).t != nil {
+			return tuple{r[0], iface{}, r[2]}
+		}
+		rdr := e.callFn(e.fn("bytes", "NewReader"), []value{r[1]})
+		return tuple{r[0], iface{t: types.NewPointer(e.namedType("bytes", "Reader")), v: rdr}, e.errNil()}
+	}
 	x["(*"+wsPkg+".Conn).Close"] = func(e *Engine, fr *frame, a []value) value {
 		w := e.wsOf(a[0])
 		e.yield()
@@ -212,6 +224,49 @@ func (e *Engine) setupDial() {
 	x[rtPkg+".WSDialFail"] = func(e *Engine, fr *frame, a []value) value {
 		t := a[0].(*Term)
 		e.objs["wsdialfail"] = e.decide(t)
+		return nil
+	}
+}
+
+// Upgrade model: gorilla's Upgrader.Upgrade returns the server end of a fresh
+// M-ws pair (the harness holds the client end) or fails when the harness asked
+// for a failing handshake.
+func (e *Engine) setupUpgrade() {
+	x := e.ext
+	x["(*"+wsPkg+".Upgrader).Upgrade"] = func(e *Engine, fr *frame, a []value) value {
+		connT := e.namedType(wsPkg, "Conn")
+		if fail, _ := e.objs["wsupgradefail"].(bool); fail {
+			return tuple{(*value)(nil), e.newErr("websocket: the client is not using the websocket protocol (M-ws: handshake refused)")}
+		}
+		pa, pb := new(value), new(value)
+		*pa, *pb = zero(connT), zero(connT)
+		wa, wb := &wsEnd{}, &wsEnd{}
+		wa.peer, wb.peer = wb, wa
+		e.ws[pa], e.ws[pb] = wa, wb
+		ups, _ := e.objs["wsupgrades"].([]*wsDial)
+		e.objs["wsupgrades"] = append(ups, &wsDial{peer: pb, local: pa})
+		return tuple{pa, e.errNil()}
+	}
+	getUp := func(e *Engine, a []value) *wsDial {
+		ups, _ := e.objs["wsupgrades"].([]*wsDial)
+		i := int(a[0].(*Term).V)
+		if i < 0 || i >= len(ups) {
+			e.rtPanic("rt.WSUpgrade*: index out of range")
+		}
+		return ups[i]
+	}
+	x[rtPkg+".WSUpgrades"] = func(e *Engine, fr *frame, a []value) value {
+		ups, _ := e.objs["wsupgrades"].([]*wsDial)
+		return BV(64, uint64(len(ups)))
+	}
+	x[rtPkg+".WSUpgradePeer"] = func(e *Engine, fr *frame, a []value) value {
+		return iface{t: types.NewPointer(e.namedType(wsPkg, "Conn")), v: getUp(e, a).peer}
+	}
+	x[rtPkg+".WSUpgradeClosed"] = func(e *Engine, fr *frame, a []value) value {
+		return BoolT(e.wsOf(getUp(e, a).local).closed)
+	}
+	x[rtPkg+".WSUpgradeFail"] = func(e *Engine, fr *frame, a []value) value {
+		e.objs["wsupgradefail"] = e.decide(a[0].(*Term))
 		return nil
 	}
 }
